@@ -97,6 +97,39 @@ def _has_q(e, _seen=None):
         stack.extend(x.children())
     return False
 
+def _consts(e, acc, seen):
+    """names of the uninterpreted constants and functions of a term"""
+    stack = [e]
+    while stack:
+        x = stack.pop()
+        i = x.get_id()
+        if i in seen: continue
+        seen.add(i)
+        if z3.is_quantifier(x):
+            stack.append(x.body()); continue
+        if z3.is_app(x):
+            d = x.decl()
+            if d.kind() == z3.Z3_OP_UNINTERPRETED:
+                acc.add(d.name())
+            stack.extend(x.children())
+
+def relevant_hyps(hyps, goal):
+    """ground hypotheses plus the quantified ones that talk about a symbol of the goal (or of a ground hypothesis that
+    shares a symbol with the goal).  Fewer hypotheses: sound for proofs."""
+    gs = set(); _consts(goal, gs, set())
+    ground, quant = [], []
+    for h in hyps:
+        s = set(); _consts(h, s, set())
+        (quant if _has_q(h) else ground).append((h, s))
+    reach = set(gs)
+    for h, s in ground:
+        if s & gs and len(s) <= 12:
+            reach |= s
+    keep = [h for h, s in quant if s & reach]
+    if len(keep) == len(quant):
+        return None
+    return [h for h, s in ground] + keep
+
 def _inproc_check(args):
     """first attempt inside a pool worker (no process start-up): z3 5.1.0 library on the same SMT-LIB text"""
     txt, timeout_ms = args
@@ -134,11 +167,14 @@ class Portfolio:
         try:
             ob.smt2 = ob.to_smt2()
             ob.smt2_ground = None
+            ob.smt2_rel = None
             if ob.kind == 'proof' and any(z3.is_quantifier(h) or _has_q(h) for h in ob.hyps):
                 # the same goal from the quantifier-free hypotheses only (sound: fewer hypotheses); decides vacuous and purely
                 # ground obligations without exposing the solver to instantiation loops
                 g = Obligation(ob.name, [h for h in ob.hyps if not _has_q(h)], ob.goal, 'proof')
                 ob.smt2_ground = g.to_smt2(want_model=False)
+                rh = relevant_hyps(ob.hyps, ob.goal)
+                ob.smt2_rel = Obligation(ob.name, rh, ob.goal, 'proof').to_smt2(want_model=False) if rh is not None else None
         except Exception as e:          # term construction problems are engine errors, not refutations
             ob.status, ob.answer, ob.output = 'unknown', 'error', 'export failed: %r' % e
             return
@@ -160,7 +196,20 @@ class Portfolio:
         # first try: primary solver with short timeout, then the others with the full one
         plan = [(solvers[0], min(self.timeout, 4))] + [(s, self.timeout) for s in solvers[1:]] + [(solvers[0], self.timeout)]
         decided = None
-        for solver, to in plan:
+        if getattr(ob, 'smt2_rel', None) and ob.kind == 'proof':
+            rpath = path[:-5] + '-rel.smt2'
+            with open(rpath, 'w') as f:
+                f.write(ob.smt2_rel)
+            for solver in ('z3-new', 'z3-new-s1'):
+                ans, out, dt = run_solver(solver, rpath, min(self.timeout, 4))
+                total += dt
+                outs.append('== %s on relevant hypotheses (%.2fs): %s' % (solver, dt, ans))
+                if ans == 'unsat':
+                    decided = (ans, solver + '(relevant quantified hypotheses)', out)
+                    break
+            try: os.unlink(rpath)
+            except OSError: pass
+        for solver, to in (plan if decided is None else []):
             ans, out, dt = run_solver(solver, path, to)
             total += dt
             outs.append('== %s (%.2fs): %s' % (solver, dt, ans))
@@ -203,6 +252,13 @@ class Portfolio:
                         self.solver_seconds += dt
                         if r == 'unsat':
                             ob.status, ob.answer, ob.solver, ob.seconds = 'discharged', r, 'z3-new(lib, ground hypotheses)', dt
+                    pending = [ob for ob in pending if ob.status is None]
+                    rl = [ob for ob in pending if getattr(ob, 'smt2_rel', None)]
+                    res1 = pool.map(_inproc_check, [(ob.smt2_rel, 1500) for ob in rl], chunksize=4)
+                    for ob, (r, dt) in zip(rl, res1):
+                        self.solver_seconds += dt
+                        if r == 'unsat':
+                            ob.status, ob.answer, ob.solver, ob.seconds = 'discharged', r, 'z3-new(lib, relevant quantified hypotheses)', dt
                     pending = [ob for ob in pending if ob.status is None]
                     res = pool.map(_inproc_check, [(ob.smt2, 1500) for ob in pending], chunksize=4)
                 for ob, (r, dt) in zip(pending, res):
